@@ -376,7 +376,7 @@ func (ex *Exec) applyContract(f *frame, st *State, c *Contract, callee *ssa.Func
 		for _, e := range group {
 			v, err := envPost.trans(e.Expr)
 			if err != nil {
-				ex.note("contract clause does not attach and is not assumed: " + c.Key + ": " + e.Text)
+				ex.oblige(f, st, "requires", shortKey(c.Key)+":ensures-does-not-attach", e.Label, pos, tFalse, "a clause of the callee's contract no longer attaches ("+err.Error()+"): "+e.Text)
 				continue
 			}
 			ex.assume(st, v.t)
